@@ -25,6 +25,10 @@ namespace Rux.Reg
 /-- a handler is identified by its tag -/
 abbrev H := Nat
 
+/-- the bytes of an ASCII string literal (unlike `String.toUTF8` this reduces in the kernel, so facts
+    about the literals used below can be proved by `decide`) -/
+def ascii (s : String) : Bytes := s.toList.map Char.toNat
+
 /-- panics of the registration code (both are `panic(msg)` in Go) -/
 inductive Err where
   | tooMany          -- "too many handlers(number: %d)": Route.Use, appendGroupInfo
@@ -122,9 +126,9 @@ def restRoutes (rd : ResDef) : List RouteDef :=
   (rd.order.filter (fun a => decide (a ∈ rd.impl))).map fun a =>
     { id := rd.rid + a.idx
       main := rd.rid + a.idx
-      name := rd.resName ++ Bytes.ofString "_" ++ Bytes.ofString a.lname
-      methods := a.methods.map Bytes.ofString
-      path := Bytes.ofString a.relPath
+      name := rd.resName ++ ascii "_" ++ ascii a.lname
+      methods := a.methods.map ascii
+      path := ascii a.relPath
       pre := []
       post := match rd.uses.lookup a with
         | some hs => [hs]
